@@ -36,8 +36,9 @@ Fixpoint p_put (t : ptab) (n : bytes) (v : pol) : ptab :=
   | (n', v') :: tl => if bytes_eqb n n' then (n, v) :: tl
                       else if lex_leb n n' then (n, v) :: (n', v') :: tl else (n', v') :: p_put tl n v
   end.
+(* delete(pm.policies, name): no entry of that name is left *)
 Fixpoint p_del (t : ptab) (n : bytes) : ptab :=
-  match t with [] => [] | (n', v) :: tl => if bytes_eqb n n' then tl else (n', v) :: p_del tl n end.
+  match t with [] => [] | (n', v) :: tl => if bytes_eqb n n' then p_del tl n else (n', v) :: p_del tl n end.
 
 (* radius.DefaultPolicies(), names as ASCII bytes *)
 Definition default_policies : list (bytes * pol) :=
